@@ -28,6 +28,10 @@ UNITS = {
                          gname='m_computeCollinearIntersection_4', instantiation=0),
     'K_intersectZ': dict(src=LI, qual='geos::algorithm::LineIntersector::computeIntersect', nparams=4, imports=LIP,
                          gname='g_intersectZ', instantiation=0, deps=['K_collinearZ'], state_calls=['computeCollinearIntersection']),
+    # SimplePointInAreaLocator::locatePointInSurface: envelope short-cuts, shell, then the loop over the holes (search loop with returns)
+    'K_locatePointInSurface': dict(src='src/algorithm/locate/SimplePointInAreaLocator.cpp',
+                                   qual='geos::algorithm::locate::SimplePointInAreaLocator::locatePointInSurface', nparams=2,
+                                   imports=['C07.PreludeSurf'], gname='g_locatePointInSurface'),
     # --- binary64: DD arithmetic (overload picked = first definition with that arity in DD.cpp: the (const DD&) forms)
     'K_ddSelfAdd2': dd('DD::selfAdd', 2, 'm_selfAdd_2'),
     'K_ddSelfAdd1': dd('DD::selfAdd', 1, 'm_selfAdd_1', ['K_ddSelfAdd2']),
